@@ -61,6 +61,10 @@ def run(ctx):
     # the interned size cost is computed on the generator the bundle would be emitted as: (coin, puzzle, solution) order (shared with C08.2)
     from . import c08
     c08.c08_triples(ctx, R="C04.4")
+    # the cost of a reserved two-byte opcode is its table slot (plus the generic charge made by parse_conditions): shared with C01.2
+    from . import c01
+    from . import cond_spec as _S
+    c01.c01_2(ctx, _S.load(), rule="C04.2", only={"two-byte"})
 
 
 def c04_1(ctx, spec):
